@@ -9,6 +9,7 @@ import (
 	"sort"
 	"strconv"
 	"strings"
+	"unicode"
 
 	"golang.org/x/text/unicode/norm"
 	"golang.org/x/tools/go/ssa"
@@ -157,8 +158,172 @@ var twoCharTokens = map[rune]struct {
 	'/': {[]rune{'/', '*'}, []string{"<line-comment>", "<block-comment>"}, "SLASH"},
 }
 
+// checkWordCharacters: which runes may stand in a word is decided for every code point — isAlpha(r) holds exactly for
+// letters, combining marks and the underscore (U+0000 … U+10FFFF, with Go's unicode tables as the reference, as the
+// digit rule of C10 does).  The predicate's paths are evaluated, not run: each path is a conjunction of comparisons with
+// constants and of unicode class tests, and the path a code point satisfies gives its answer.  A predicate written in
+// terms this evaluation does not know is left to the other rules (a note, not a verdict).
+func checkWordCharacters(p *Prog, l *Ledger, rule string) {
+	fn := p.Func("lexer.isAlpha")
+	if fn == nil || len(fn.Params) != 1 {
+		l.Note("word characters: lexer.isAlpha not found; the exhaustive rule is skipped")
+		return
+	}
+	m := NewInterpModel(p, fnName(fn))
+	m.EmitTests = true
+	m.KeepAsEvent = func(c *ssa.Function) bool { return false }
+	v := fn.Params[0].Name()
+	m.Explore(fn, []AV{Sym(v)}, nil)
+	ws, ok := m.G.Words(2000)
+	if !ok || len(ws) == 0 || len(m.Undecided) > 0 {
+		l.Note("word characters: the paths of isAlpha are not enumerable; the exhaustive rule is skipped")
+		return
+	}
+	type cond func(r int64) bool
+	compile := func(c string, truth bool) cond {
+		if mm := reCmp.FindStringSubmatch(c); mm != nil {
+			a, op, b := mm[1], mm[2], mm[3]
+			ka, errA := strconv.ParseInt(a, 10, 64)
+			kb, errB := strconv.ParseInt(b, 10, 64)
+			switch {
+			case a == v && errB == nil && op == "<":
+				return func(r int64) bool { return (r < kb) == truth }
+			case a == v && errB == nil && op == "==":
+				return func(r int64) bool { return (r == kb) == truth }
+			case b == v && errA == nil && op == "<":
+				return func(r int64) bool { return (ka < r) == truth }
+			case b == v && errA == nil && op == "==":
+				return func(r int64) bool { return (ka == r) == truth }
+			}
+			return nil
+		}
+		if mm := reCall.FindStringSubmatch(c); mm != nil && mm[2] == v {
+			if set, ok := membershipSet(mm[1]); ok {
+				return func(r int64) bool { return set[r] == truth }
+			}
+			var f func(rune) bool
+			switch mm[1] {
+			case "IsLetter":
+				f = unicode.IsLetter
+			case "IsMark":
+				f = unicode.IsMark
+			case "IsDigit":
+				f = unicode.IsDigit
+			case "IsNumber":
+				f = unicode.IsNumber
+			case "IsSpace":
+				f = unicode.IsSpace
+			case "IsPunct":
+				f = unicode.IsPunct
+			}
+			if f != nil {
+				return func(r int64) bool { return f(rune(r)) == truth }
+			}
+		}
+		return nil
+	}
+	type path struct {
+		conds  []cond
+		result cond // the answer as a function of the rune (a constant, or one more condition)
+	}
+	var paths []path
+	for _, w := range ws {
+		var pt path
+		for _, e := range w {
+			if e.Op != "test" {
+				continue
+			}
+			c := compile(e.Args[0], e.Out == "true")
+			if c == nil {
+				l.Note("word characters: isAlpha decides on %s, which the exhaustive evaluation does not know; the rule is skipped", e.Args[0])
+				return
+			}
+			pt.conds = append(pt.conds, c)
+		}
+		last := lastOf(w)
+		if last == nil || last.Op != "return" {
+			l.Note("word characters: a path of isAlpha does not end in a return; the exhaustive rule is skipped")
+			return
+		}
+		r := last.KV["r0"]
+		switch r {
+		case "true":
+			pt.result = func(int64) bool { return true }
+		case "false":
+			pt.result = func(int64) bool { return false }
+		default:
+			truth := true
+			if strings.HasPrefix(r, "!") {
+				truth, r = false, r[1:]
+			}
+			pt.result = compile(r, truth)
+			if pt.result == nil {
+				l.Note("word characters: isAlpha returns %s, which the exhaustive evaluation does not know; the rule is skipped", last.KV["r0"])
+				return
+			}
+		}
+		paths = append(paths, pt)
+	}
+	var wrongly, missing []ivl
+	add := func(set []ivl, r int64) []ivl {
+		if n := len(set); n > 0 && set[n-1].hi == r-1 {
+			set[n-1].hi = r
+			return set
+		}
+		return append(set, ivl{r, r})
+	}
+	for r := int64(0); r <= maxRune; r++ {
+		got, found := false, false
+		for _, pt := range paths {
+			sat := true
+			for _, c := range pt.conds {
+				if !c(r) {
+					sat = false
+					break
+				}
+			}
+			if sat {
+				got, found = pt.result(r), true
+				break
+			}
+		}
+		if !found {
+			l.Note("word characters: no path of isAlpha covers U+%04X; the exhaustive rule is skipped", r)
+			return
+		}
+		want := unicode.IsLetter(rune(r)) || unicode.IsMark(rune(r)) || r == '_'
+		if got && !want {
+			wrongly = add(wrongly, r)
+		}
+		if !got && want {
+			missing = add(missing, r)
+		}
+	}
+	short := func(set []ivl) string {
+		s := ivlString(set)
+		if len(set) > 6 {
+			s = ivlString(set[:6]) + fmt.Sprintf(" … (%d ranges)", len(set))
+		}
+		return s
+	}
+	switch {
+	case len(wrongly) > 0 || len(missing) > 0:
+		var why []string
+		if len(wrongly) > 0 {
+			why = append(why, "code points that are neither letter, mark nor underscore are taken as word characters: "+short(wrongly)+" — text that must be rejected (\"Unexpected character.\") scans as part of a name")
+		}
+		if len(missing) > 0 {
+			why = append(why, "letters or marks that are not taken as word characters: "+short(missing))
+		}
+		l.Violate(rule, "isAlpha#all-code-points", p.Pos(fn.Pos()), strings.Join(why, " || "))
+	default:
+		l.Discharge(rule, "isAlpha#all-code-points", p.Pos(fn.Pos()), fmt.Sprintf("for each of the %d code points the path it satisfies answers letter ∨ mark ∨ '_' (%d paths)", maxRune+1, len(paths)), true)
+	}
+}
+
 func checkC09(p *Prog, l *Ledger) {
 	checkLexPrimitives(p, l, "C09/S0-cursor-primitives")
+	checkWordCharacters(p, l, "C09/S3-maximal-munch/word-characters")
 	run := exploreScanToken(p)
 	if run == nil {
 		l.Undecide("C09/anchors", "scanToken", "", "not found")
